@@ -188,7 +188,7 @@ def write_replay(prop, res, hashseed, fingerprint):
     doc = {"property": prop, "oracle": v["oracle"], "seed": res["trace"].get("seed"), "hashseed": hashseed,
            "key": violation_key(res), "violation": v, "all_violations": res["violations"],
            "trace": res["trace"], "shrunk": res.get("shrunk"), "tree_fingerprint": fingerprint,
-           "ref_hashseed": res.get("ref_hashseed"),
+           "ref_hashseed": res.get("ref_hashseed"), "ref_optimize": res.get("ref_optimize"),
            "events": res.get("events")}
     name = "%s-s%s-%s.json" % (prop, res["trace"].get("seed"), core.digest_of(_essential(res["trace"]))[:8])
     path = os.path.join(d, name)
@@ -228,6 +228,8 @@ def replay_file(path, scratch=None):
             return ok, {"status": "violation" if ok else "ok", "digests": {str(k): v for k, v in digs.items()},
                         "violations": [{"oracle": "hashseed_dependent", "observed": digs and str(digs)}]}
         extra = {"VERIF_REF_HASHSEED": str(doc["ref_hashseed"])} if doc.get("ref_hashseed") is not None else None
+        if extra is not None and doc.get("ref_optimize") is not None:
+            extra["VERIF_REF_OPTIMIZE"] = "1" if doc["ref_optimize"] else "0"
         w = WorkerProc(tree, WORLD_OF[doc["property"]], os.path.join(scratch.root, "replay-work"),
                        doc.get("hashseed", 0), extra)
         try:
